@@ -23,8 +23,8 @@ RULE = ('bounded exhaustive enumeration of source texts, each parsed by the real
         'exceeds 1 or the text is faulty (nesting, contin).')
 ASSUMPTIONS = [
     'trusted: mc/ref/blocks.py - the block automaton of appendix A.4 and the independent logical-line joiner (comment lines '
-    'skipped, continuation pieces trimmed and joined by one space); a comment line between continuation pieces is treated '
-    'as UNSPECIFIED for the line text',
+    'skipped - also between continuation pieces -, pieces trimmed and joined by one space); a BLANK line between continuation '
+    'pieces is treated as UNSPECIFIED for the line text',
     'admissible fault lines: the line at which the automaton is stuck or the opening line of the innermost block left '
     'unclosed by it; at end of input any unclosed opening line',
     'which texts over the soup vocabulary are accepted is not judged (no reference grammar for statements here): only '
@@ -836,15 +836,18 @@ def build_contin(case):
         pieces.append(piece)
     dangling = pos == run_len + 2
     lines = [wrap(kind, '')[0]]
+    ncomment = case.get('cm', 0)
     for j, piece in enumerate(pieces):
         lines.append(piece + (ws if j < run_len or dangling else ''))
+        if j == 0 and ncomment:
+            lines.append('    # a comment between the pieces, with a backslash \\')
     literals = [float(t) for t in terms if t != '@']
     if dangling:
         return lines, 'dangling', 2, literals
     if pos == run_len + 1:
         lines.append('vv(802 @)')
         lines.append(wrap(kind, '')[2])
-        return lines, 'after', 2 + run_len + 1, literals
+        return lines, 'after', 2 + run_len + 1 + ncomment, literals
     lines.append('vv(802)')
     lines.append(wrap(kind, '')[2])
     if pos == -1:
@@ -911,12 +914,13 @@ def fam_contin(arg):
         for kind in STMT_KINDS:
             for ws in range(len(CONT_WS)):
                 for ind in range(len(CONT_IND)):
-                    acc.cases += 1
-                    case = {'run': run_len, 'pos': pos, 'stmt': kind, 'ws': ws, 'ind': ind}
-                    out = check_contin(case, acc)
-                    seen.add(out)
-                    if pos != -1:
-                        acc.nontrivial += 1
+                    for cm in (0, 1):
+                        acc.cases += 1
+                        case = {'run': run_len, 'pos': pos, 'stmt': kind, 'ws': ws, 'ind': ind, 'cm': cm}
+                        out = check_contin(case, acc)
+                        seen.add(out)
+                        if pos != -1:
+                            acc.nontrivial += 1
         if len(acc.samples) < 2 and run_len == 3:
             acc.sample({'run': run_len, 'fault_piece': pos, 'text': text_contin({'run': run_len, 'pos': pos, 'stmt': 'if', 'ws': 0, 'ind': 1})})
     return acc.result()
@@ -1058,8 +1062,8 @@ def families(tier):
                expected=nest * len(STMT_KINDS) * sum(len(SHAPE_VARIANTS[s]) for s in SHAPES)),
         Family('contin', fam_contin, split(contin_cases(), 32),
                f'backslash runs 1..{MAXRUN} x fault in no/each piece/the next line/dangling x {len(STMT_KINDS)} statement kinds x '
-               f'{len(CONT_WS)} backslash spacings x {len(CONT_IND)} indents',
-               expected=sum(r + 4 for r in range(1, MAXRUN + 1)) * len(STMT_KINDS) * len(CONT_WS) * len(CONT_IND)),
+               f'{len(CONT_WS)} backslash spacings x {len(CONT_IND)} indents x with/without a comment line between the pieces',
+               expected=sum(r + 4 for r in range(1, MAXRUN + 1)) * len(STMT_KINDS) * len(CONT_WS) * len(CONT_IND) * 2),
         Family('prefix', fam_prefix, [(tier, cuts[i], cuts[i + 1]) for i in range(64) if cuts[i + 1] > cuts[i]],
                f'{nbases} base texts (keyword sequences <= {3 if quick else 4} lines, soup lines <= {2 if quick else 3} tokens, all mutants of '
                f'{4 if quick else 16} corpus programs, fault columns up to {140 if quick else 200}) x {len(PREFIXES)} prefixes of 1..3 lines '
@@ -1074,7 +1078,7 @@ _CHECKS = {'keywords': check_keywords, 'soup': check_soup, 'mutants': check_muta
 def replay(family, case):
     acc = Acc(family)
     case = {k: v for k, v in case.items() if k in ('idx', 'tok', 'src', 'depth', 'prog', 'mut', 'kind', 'fault', 'tail', 'f', 'len', 'col',
-                                                    'shape', 'stmt', 'variant', 'run', 'pos', 'ws', 'ind', 'base', 'prefix', 'start')}
+                                                    'shape', 'stmt', 'variant', 'run', 'pos', 'ws', 'ind', 'cm', 'base', 'prefix', 'start')}
     if family == 'prefix':
         check_prefix(case, acc)
     else:
